@@ -5,10 +5,10 @@ SPECS = os.path.join(os.path.dirname(os.path.dirname(os.path.abspath(__file__)))
 BASE = dict(MaxStmts=3, MaxDepth=3, MaxUnits=1, MaxVar=1, UnitKinds="ExhUnits", ConKinds="ExhCons", SpecKinds="ExhSpec",
             SimpleV="Set1", DeclV="Set1", UseV="Set1", FormatV="Set1", CompV="Set1", TbindV="Set1",
             NameChoices="Set01", EndForms="Set02", LabelStmts="FALSE", Contains="TRUE",
-            PKinds="KCmt", MaxEdits=1, InsSet="InsSmall", MinEdits=0, Randomised="FALSE", DumpMod=1)
+            PKinds="KCmt", MaxEdits=1, InsSet="InsSmall", MinEdits=0, Randomised="FALSE", DumpMod=1, NRepl=17, RichOnly="FALSE", MaxRich="<- Unlimited")
 SIM = dict(MaxStmts=30, MaxDepth=5, MaxUnits=3, MaxVar=9, UnitKinds="AllUnits", ConKinds="AllCons", SpecKinds="AllSpec",
            SimpleV="SimpleAll", DeclV="DeclAll", UseV="UseAll", FormatV="FormatAll", CompV="CompAll", TbindV="TbindAll",
-           NameChoices="Set01", EndForms="Set012", LabelStmts="TRUE", Contains="TRUE", InsSet="InsAll", MinEdits=1, Randomised="TRUE", DumpMod=1)
+           NameChoices="Set01", EndForms="Set012", LabelStmts="TRUE", Contains="TRUE", InsSet="InsAll", MinEdits=1, Randomised="TRUE", DumpMod=1, NRepl=17, RichOnly="FALSE", MaxRich="<- Unlimited")
 TABLE = {
     "Perturb_c11_quick": dict(BASE, PKinds="KCmt", MaxEdits=1, DumpMod=16),
     "Perturb_c11_thorough": dict(BASE, PKinds="KCmt", MaxEdits=1, MaxStmts=4),
@@ -28,14 +28,29 @@ TABLE = {
     "Perturb_c04_quick": dict(BASE, PKinds="KLayout1", MaxEdits=1, DumpMod=4),
     "Perturb_c04_thorough": dict(BASE, PKinds="KLayout1", MaxEdits=2, MaxStmts=4),
     "Perturb_c04_sim": dict(SIM, PKinds="KLayout", MaxEdits=8, MinEdits=4),
+    # C06: every catalogue variant (sweep: at most one non-default variant per program) with every single mutation of that statement
+    "Perturb_c06_exec_quick": dict(BASE, MaxRich="= 1", MaxVar=9, UnitKinds="SubOnly", ConKinds="SweepCons", SpecKinds="Empty", SimpleV="SimpleAll", PKinds="KMut",
+                                   NameChoices="Set1", EndForms="Set1", Contains="FALSE", RichOnly="TRUE", DumpMod=97),
+    "Perturb_c06_decl_quick": dict(BASE, MaxStmts=3, MaxRich="= 1", MaxVar=9, UnitKinds="SweepUnits", ConKinds="Empty", SpecKinds="Empty", DeclV="DeclAll", UseV="UseAll",
+                                   FormatV="FormatAll", PKinds="KMut", NameChoices="Set1", EndForms="Set1", Contains="FALSE", RichOnly="TRUE", DumpMod=23),
+    "Perturb_c06_type_quick": dict(BASE, MaxStmts=4, MaxRich="= 1", MaxVar=9, UnitKinds="ModOnly", ConKinds="Empty", SpecKinds="AllSpec", CompV="CompAll", TbindV="TbindAll",
+                                   PKinds="KMut", NameChoices="Set1", EndForms="Set1", Contains="FALSE", RichOnly="TRUE", DumpMod=47),
+    "Perturb_c06_exec_thorough": dict(BASE, MaxRich="= 1", MaxVar=9, UnitKinds="SubOnly", ConKinds="SweepCons", SpecKinds="Empty", SimpleV="SimpleAll", PKinds="KMut",
+                                      NameChoices="Set1", EndForms="Set1", Contains="FALSE", RichOnly="TRUE", DumpMod=5),
+    "Perturb_c06_spec_thorough": dict(BASE, MaxStmts=4, MaxRich="= 1", MaxVar=9, UnitKinds="SweepUnits", ConKinds="Empty", SpecKinds="AllSpec", DeclV="DeclAll", UseV="UseAll",
+                                      FormatV="FormatAll", CompV="CompAll", TbindV="TbindAll", PKinds="KMut", NameChoices="Set1", EndForms="Set1", Contains="FALSE", RichOnly="TRUE", DumpMod=19),
+    "Perturb_c06_sim": dict(SIM, PKinds="KMut", MaxEdits=3),
     "Perturb_c15_quick": dict(BASE, PKinds="KSent", MaxEdits=2),
     "Perturb_c15_thorough": dict(BASE, PKinds="KSent", MaxEdits=3, MaxStmts=4),
     "Perturb_c15_sim": dict(SIM, PKinds="KSentCmt", MaxEdits=4),
 }
 SUBST = {"UnitKinds", "ConKinds", "SpecKinds", "SimpleV", "DeclV", "UseV", "FormatV", "CompV", "TbindV", "NameChoices", "EndForms", "PKinds", "InsSet"}
 for name, d in TABLE.items():
-    L = ["SPECIFICATION Spec", "CONSTANTS", "  MaxRich <- Unlimited"]
+    L = ["SPECIFICATION Spec", "CONSTANTS"]
     for k, v in d.items():
+        if k == "MaxRich":
+            L.append("  MaxRich " + v)
+            continue
         L.append("  %s %s %s" % (k, "<-" if k in SUBST else "=", v))
     L += ["  NCmtCls = %d" % (7 if "_c15_" in name else 8), "  NCppForms = 18", "  NGarb = 3", "  DirectiveCls <- DirCls",
           "INVARIANT WellNested", "INVARIANT GrammarInNest", "CONSTRAINT PDump"]
